@@ -52,6 +52,29 @@ def classify(prop, job, diffs):
     return t[:80]
 
 
+def open_calls(h, s):
+    """container-level mutators in a state with an open iterator: the specification enables only loop-level calls on other
+    loops there (what the documentation defines); the others are executed after the state comparison and held to C05 alone -
+    whatever they return, a failure code must come with an unchanged CIF"""
+    busy = [c for c, b in s["tx"].items() if b]
+    if not busy:
+        return []
+    conts = []
+    for e in h:
+        for k in ("cont",) + (("h",) if e["op"] in ("create_block", "create_frame", "get_block", "get_frame") else ()):
+            if e.get(k) and e[k] not in conts:
+                conts.append(e[k])
+    one = {"k": "numb", "t": "7"}
+    calls = []
+    for c in conts[:2]:
+        calls += [{"op": "set_value", "cont": c, "name": "_open.new", "v": one},
+                  {"op": "create_loop", "cont": c, "category": "open", "names": ["_open.a", "_open.a"]},
+                  {"op": "create_loop", "cont": c, "category": "open", "names": ["_open.b"]},
+                  {"op": "create_frame", "cont": c, "code": "open frame"},
+                  {"op": "remove_item", "cont": c, "name": "_open.none"}]
+    return [(busy[0], x) for x in calls]
+
+
 def run_config(rep, binary, name, params, mode, max_states=None, rnd=None, conc_ids=(0, 1, 2)):
     """mode: 'states' (state jobs only), 'edges' (also state-changing transitions after the source's refused calls)"""
     cfg = make_cfg(params)
@@ -82,6 +105,8 @@ def run_config(rep, binary, name, params, mode, max_states=None, rnd=None, conc_
             for e in h + probes:
                 opcov["%s:%s" % (e["op"], e.get("rc", "-"))] += 1
             jobs.append(Job("state", h + probes, s, conc, key, len(probes)))
+            if rep.prop == "C05":
+                jobs[-1].free = open_calls(h, s)
         else:
             nedges += 1
             edges.append(o)
@@ -247,7 +272,8 @@ def c05(tier, replay=None):
                  ("loop1-d2", dict(SCRIPT="ScriptLoop1", MaxHist=2, MaxLast=3, MaxNames=2, MaxPkt=3, NAMES='{"_x", "_y", "_z", "bad"}', VALS='{"s1"}', PVALS='{"s1", "s2"}'), "edges"),
                  # refused and accepted calls on another loop inside an open iterator's transaction
                  ("busy-d2", dict(SCRIPT="ScriptBusy", FOREIGN="TRUE", MaxHist=2, MaxLast=3, MaxNames=2, MaxPkt=2, NAMES='{"_x", "_y", "_z", "_w", "bad"}', VALS='{"s1"}', PVALS='{"s1", "s2"}'), "edges"),
-                 ("busy1-d2", dict(SCRIPT="ScriptBusy1", FOREIGN="TRUE", MaxHist=2, MaxLast=3, MaxNames=2, MaxPkt=2, NAMES='{"_x", "_y", "_z", "_w", "bad"}', VALS='{"s1"}', PVALS='{"s1", "s2"}'), "edges")]
+                 ("busy1-d2", dict(SCRIPT="ScriptBusy1", FOREIGN="TRUE", MaxHist=2, MaxLast=3, MaxNames=2, MaxPkt=2, NAMES='{"_x", "_y", "_z", "_w", "bad"}', VALS='{"s1"}', PVALS='{"s1", "s2"}'), "edges"),
+                 ("stuck-busy-d1", dict(SCRIPT="ScriptStuckBusy", FOREIGN="TRUE", MaxHist=1, MaxLast=3, MaxNames=2, MaxPkt=1, NAMES='{"_x", "_y", "_z", "_w"}', VALS='{"s1"}', PVALS='{"s1"}', CATS='{"", "k"}', CSLOTS="MCCSlots1", LSLOTS="MCLSlots2"), "edges")]
     else:
         plans = [("offender-d5", dict(MaxHist=5, MaxNames=3, MaxPkt=2, CODES='{"a", "A"}', CATS='{"", "k"}', CSLOTS="MCCSlots1", LSLOTS="MCLSlots1", VALS='{"s1"}', PVALS='{"s1"}'), "edges"),
                  ("loop-d3", dict(SCRIPT="ScriptLoop", MaxHist=3, MaxLast=4, MaxNames=2, MaxPkt=3, NAMES='{"_x", "_X", "_y", "_z", "bad"}', VALS='{"s1"}', PVALS='{"s1", "s2"}'), "edges"),
